@@ -13,6 +13,7 @@
 from __future__ import annotations
 
 import ast
+import re
 from typing import Dict, List, Optional, Set, Tuple
 
 from ..ctor import ctor_record
@@ -116,6 +117,56 @@ def _enclosing_tests(fn_node: ast.AST, target: ast.AST) -> List[ast.expr]:
 
     find(fn_node, [])
     return [p.test for p in path if isinstance(p, (ast.If, ast.IfExp, ast.While))]
+
+
+def transpose_product_rule(idx: ProgramIndex, rep: Report, prop: str, rule: str) -> None:
+    """(A B)^T x = B^T A^T x - see the comment at the call site in run(); re-used by C07 (the rhs gradient of Matmul and the
+    second factor's _bilinear_derivative are computed through _t_matmul)."""
+    rep.rule(rule, "transpose products of composites go through the transpose products of their components", floor=8)
+    for c in idx.operator_classes():
+        fn = c.methods.get("_t_matmul")
+        if fn is None:
+            continue
+        init = idx.resolve_method(c, "__init__")
+        diag_attrs = set()
+        if init is not None:
+            for st in walk_body(init):
+                if isinstance(st, ast.If) and "isinstance(" in norm(st.test) and "Diag" in norm(st.test):
+                    for x in st.body:
+                        for y in ast.walk(x):
+                            if isinstance(y, ast.Assign) and re.search(r"isinstance\(" + re.escape(norm(y.value)) + r", [\w\.]*Diag", norm(st.test)):
+                                # the very value that is bound is the one tested to be diagonal
+                                for t in y.targets:
+                                    if isinstance(t, ast.Attribute) and isinstance(t.value, ast.Name) and t.value.id == "self":
+                                        diag_attrs.add(t.attr)
+        sn = fn.params()[0] if fn.params() else "self"
+        bad_calls = []
+        n_comp = 0
+        for n in walk_body(fn):
+            if not (isinstance(n, ast.Call) and isinstance(n.func, ast.Attribute) and n.func.attr in ("_matmul", "matmul", "_t_matmul")):
+                continue
+            recv = n.func.value
+            if (dotted(recv) or "").split(".")[0] == "torch" or (isinstance(recv, ast.Name) and recv.id == sn):
+                continue
+            n_comp += 1
+            if n.func.attr == "_t_matmul":
+                continue
+            txt = norm(recv)
+            if any(k in txt for k in (".mT", ".T", "_transpose_nonbatch", ".transpose(", ".mH")):
+                continue
+            if isinstance(recv, ast.Attribute) and isinstance(recv.value, ast.Name) and recv.value.id == sn and recv.attr in diag_attrs:
+                continue
+            bad_calls.append(n)
+        sample = {"class": c.name, "component_products_in__t_matmul": n_comp, "through_plain_matmul": len(bad_calls)}
+        if bad_calls:
+            rep.bad(rule, Finding(prop, rule, f"{c.name}._t_matmul", norm(bad_calls[0])[:90],
+                                     f"{c.name}._t_matmul multiplies by a component with `{short(bad_calls[0], 60)}` - the component's plain "
+                                     "product, not its transpose product: A^T x is computed as A x for that component, which agrees only for "
+                                     "symmetric components (rhs gradients of matmul and the second factor's _bilinear_derivative go through "
+                                     "_t_matmul)", fn.loc(bad_calls[0])), sample)
+        else:
+            rep.ok(rule, sample)
+
 
 
 def run(idx: ProgramIndex, rep: Report, tier: str, selftest: bool = True):
@@ -272,6 +323,14 @@ def run(idx: ProgramIndex, rep: Report, tier: str, selftest: bool = True):
 
     rep.rule("C01.O", "inside the matmul family the factor built from self stands on the operator's side of the product", floor=15)
     check_sides(idx, rep, PROP, "C01.O")
+
+    # ---------------------------------------------------------------- T
+    # (A B)^T x = B^T A^T x: the transpose product of a composite goes through the TRANSPOSE products of its components.  A
+    # `_t_matmul` that multiplies by a component with `_matmul` / `matmul` (no transpose anywhere on that receiver) computes
+    # the plain product of that component - right only if the component is symmetric, which the tests' symmetric fixtures
+    # hide.  Exempt: the receiver is self (own symmetric classes), or an attribute that __init__ only binds under an
+    # isinstance(..., Diag...) test (a diagonal component is its own transpose).
+    transpose_product_rule(idx, rep, PROP, "C01.T")
 
     # ---------------------------------------------------------------- Q
     # argument-less squeeze() removes EVERY size-1 dimension: on a tensor whose extent is data dependent (kept rows of a
